@@ -386,6 +386,26 @@ class Solver(object):
         st.unknown += 1
         return 'unknown', None
 
+    def canon_values(self, conds, terms, env, fns):
+        """Numerical value of the canonical (stage 1) form of each term at
+        ``env`` -- compared by the harness with the value of the original
+        term to validate the canonicaliser on every proved obligation."""
+        from .canon import eval_key, Unsupported
+        nz = self._nonzero_facts(conds)
+        pos = self._positive_facts(conds, nz)
+        first = Canon(nz, positive=pos)
+        for t in terms:
+            first.lin(t)
+        cn = Canon(nz, first.structural_sums(), positive=pos)
+        out = []
+        for t in terms:
+            try:
+                out.append(eval_key(cn.lin(t).key(), env, fns))
+            except (Unsupported, ValueError, ZeroDivisionError,
+                    OverflowError, KeyError):
+                out.append(None)
+        return out
+
     def lemma_terms(self, roots):
         """The instantiated lemmas (boolean Terms) a query over ``roots``
         would assert."""
